@@ -39,6 +39,9 @@ CHECKS = {
  "C16": ("z3 regular-language inclusion of the draft's relative-pointer prefix grammar in the live RE_RELATIVE_POINTER groups; bounded execution of parse/print/to() vs the draft's definition over rendered pointers",
          "Lane R decides for offsets of any number of digits that the draft's prefix is inside the live pattern. Parse-print identity, to() equal to the draft's definition and the three forbidden applications are decided over 7 base shapes x final indices x steps x offsets (incl. multi-digit) x suffixes ('#', escaped, non-ASCII), through RelativeJSONPointer.to and JSONPointer.to.",
          "relative pointer text is rendered from integers and passes through a C regex: solver-driven enumeration over pools"),
+ "C15": ("bounded symbolic execution of the patch loader, builder methods, asdicts and Op.apply on symbolic values and documents",
+         "For operation lists of 1-3 of the eight operations: the document form, the builder chain and JSONPatch(p.asdicts()) print the same dicts (given op names) and have the same effect; apply leaves the patch and the caller's list unchanged; a second application gives an equal, structurally independent result, including container values modified by a later operation; addne/addap vs add on 12 targets.",
+         "pointer strings concrete (index from a pool of five spellings); lists up to 3 operations"),
 }
 NA = {
  "C18": "process-level I/O (argparse FileType, stdin/stdout, exit status, stderr text): CrossHair's audit wall blocks file access, file contents pass through C json, and what remains is a finite option table whose exploration would be enumeration of concrete runs - no role for a solver",
